@@ -4,4 +4,4 @@ set -e
 python3 "$(dirname "$0")/tools/gen_coq.py"
 cd "$(dirname "$0")/coq"
 coq_makefile -f _CoqProject -o Makefile
-timeout 3000 make -j16
+timeout 3000 make -k -j16 || echo "setup: some targets did not build; the checks that depend on them report it"
